@@ -441,6 +441,14 @@ def gen_dep_plan(rng):
         for d in defaults:
             d["expr"] = rand_expr(d["tgt"][2] - d["tgt"][1], rng.randrange(0, 2))
         assigns = defaults + assigns
+    if rng.random() < 0.2:
+        # a bidirectional I/O buffer: its fabric input i[k] depends combinationally on o[k] and on oe
+        w = rng.randrange(1, 4)
+        widths.append(w)
+        nsig += 1
+        ns = nsig - 1
+        assigns.append({"iob": True, "tgt": [ns, 0, w], "expr": rand_expr(w, rng.randrange(0, 2)), "cond": rand_expr(1, rng.randrange(0, 2)),
+                        "mod": rng.randrange(nmod)})
     return {"tree": tree, "widths": widths, "assigns": assigns}
 
 
@@ -560,15 +568,24 @@ def cyclic(g):
 
 
 def build_dep_plan(plan):
-    from amaranth.hdl import Module, Signal
+    from amaranth.hdl import Module, Signal, IOPort
+    from amaranth.hdl._ir import IOBufferInstance
     nmod = len(plan["tree"])
     mods = [Module() for _ in range(nmod)]
     for k in range(1, nmod):
         setattr(mods[plan["tree"][k]].submodules, f"m{k}", mods[k])
     sigs = [Signal(w, name=f"s{i}") for i, w in enumerate(plan["widths"])]
+    extra_ports = []
     for a in plan["assigns"]:
         s, lo, hi = a["tgt"]
         m = mods[a["mod"]]
+        if a.get("iob"):
+            pad = IOPort(hi - lo, name="pad")
+            extra_ports.append(pad)
+            ov, oev = Signal(hi - lo, name="pad_o"), Signal(name="pad_oe")
+            m.d.comb += [ov.eq(build_expr(a["expr"], sigs)), oev.eq(build_expr(a["cond"], sigs))]
+            m.submodules += IOBufferInstance(pad, i=sigs[s], o=ov, oe=oev)
+            continue
         if a["cond"] is None:
             m.d.comb += sigs[s][lo:hi].eq(build_expr(a["expr"], sigs))
         else:
@@ -585,7 +602,7 @@ def build_dep_plan(plan):
             if a.get("else_expr") is not None:
                 with m.Else():
                     m.d.comb += sigs[s][lo:hi].eq(build_expr(a["else_expr"], sigs))
-    return mods[0], sigs
+    return mods[0], sigs + extra_ports
 
 
 def ops_in(e, acc):
@@ -625,6 +642,8 @@ def run_dep_plan(plan, out, label="dependency-plan"):
     ops = set()
     for a in plan["assigns"]:
         ops_in(a["expr"], ops)
+        if a.get("iob"):
+            ops.add("bidirectional-io-buffer")
         if a["cond"] is not None and a["cond"][0] == "case":
             ops.add("switch-case-with-dont-care" if "-" in a["cond"][2] else "switch-case")
             ops_in(a["cond"][1], ops)
@@ -655,6 +674,50 @@ def run_dep_plan(plan, out, label="dependency-plan"):
         out["fps"].add(fp(plan))
 
 
+def run_array_reach(out):
+    """Arrays with more elements than their index can address: the elements beyond the reach of the index are neither
+    driven by an assignment through the array nor inputs of a read through it.  Another module driving element j
+    conflicts iff j is reachable; element j computed from a read of the same array is a loop iff j is reachable."""
+    import warnings
+    from amaranth.hdl import Module, Signal, Array, DriverConflict
+    from amaranth.hdl._nir import CombinationalCycle
+    from amaranth.back import rtlil
+    for k in (1, 2):
+        for n in range(2, 7):
+            for j in range(n):
+                reachable = j < (1 << k)
+                for mode in ("second-driver", "read-feeds-element"):
+                    top, sub = Module(), Module()
+                    top.submodules.sub = sub
+                    idx, x = Signal(k, name="idx"), Signal(name="x")
+                    elems = [Signal(name=f"e{i}") for i in range(n)]
+                    with warnings.catch_warnings():
+                        warnings.simplefilter("ignore")
+                        if mode == "second-driver":
+                            top.d.comb += Array(elems)[idx].eq(x)
+                            sub.d.comb += elems[j].eq(~x)
+                            exp = "conflict" if reachable else "accept"
+                        else:
+                            rd = Signal(name="rd")
+                            top.d.comb += rd.eq(Array(elems)[idx])
+                            sub.d.comb += elems[j].eq(~rd)
+                            exp = "cycle" if reachable else "accept"
+                        out["evaluations"] += 1
+                        try:
+                            rtlil.convert(top, ports=[idx, x] + elems, emit_src=False)
+                            got = "accept"
+                        except Exception as ex:
+                            if exc_origin(ex) != "repo":
+                                raise
+                            got = classify(ex)
+                    key = f"array-reach:{mode}:{exp}->{got}"
+                    out["hist"][key] = out["hist"].get(key, 0) + 1
+                    if got != exp:
+                        out["violations"].append({"mechanism": f"array-element-beyond-index-reach:{mode}:{exp}->{got}",
+                                                  "detail": {"index_bits": k, "elements": n, "element": j, "reachable": reachable}})
+                    out["fps"].add(fp(["array-reach", k, n, j, mode]))
+
+
 def shards(tier, seed):
     n = 16000 if tier == "quick" else 320000
     specs = [{"kind": "sample", "seed": seed, "shard": i, "n": n // NSHARDS} for i in range(NSHARDS)]
@@ -667,6 +730,7 @@ def run_shard(spec):
     if spec["kind"] == "enum":
         for plan in enum_driver_plans():
             run_driver_plan(plan, out, label="enum-driver-plan")
+        run_array_reach(out)
         out["exhaustive"].append("2 drivers x 3-bit signal x {same, different module} x {comb, sync, fast}^2 x {logic, instance output}")
     else:
         rng = derive_rng("c06", spec["seed"], spec["shard"])
